@@ -418,7 +418,17 @@ func cmdTreeGen(args []string) {
 	for i := 0; i < *n && deadlocks < 3; i++ {
 		in, arg := gens(g)
 		in = toGeneric(in).(map[string]any)
-		rec := map[string]any{"in": in, "out": safeEval(*fn, in, arg)}
+		rec := map[string]any{"in": in, "out": safeEval(*fn, in, arg), "panic": ""}
+		if m, ok := rec["out"].(map[string]any); ok {
+			if pm, isp := m["PANIC"]; isp {
+				// keep the record shape the Check_* module expects; the panic itself is the finding
+				rec["panic"] = fmt.Sprint(pm)
+				rec["out"] = []any{}
+			} else if dm, isd := m["DEADLOCK"]; isd {
+				rec["panic"] = "DEADLOCK: " + fmt.Sprint(dm)
+				rec["out"] = []any{}
+			}
+		}
 		if m, ok := rec["out"].(map[string]any); ok && m["DEADLOCK"] != nil {
 			deadlocks++
 		}
